@@ -3,6 +3,7 @@ from ..engine.prov import const_value, strip_casts, walk, walk_deep, show
 from ..engine.dtable import canon
 from ..engine.fold import fold
 from ..engine import panics
+from .c12 import mentions
 
 CONFIGS_QUICK = ["A", "B", "C"]
 CONFIGS_THOROUGH = ["A", "B", "C", "R", "X"]
@@ -187,6 +188,54 @@ def run_one(ck, prog):
                                 ok = by_rposition = True
         ck.ob("C11.4", "file-name-starts-after-last-separator", ok, fn=pf["path"],
               detail="path_file_name must return the suffix starting at (index of the separator found scanning from the back) + 1")
+        # the scan runs over the WHOLE string (the separator found is the last one of the string, not of a part of it) ...
+        its = [bb for bb, t in ctx.cfg.calls(lambda t: (t.get("callee") or "").endswith("<impl [T]>::iter"))]
+
+        def whole(e):
+            e = strip_casts(e)
+            n = 0
+            while isinstance(e, tuple) and e and e[0] in ("ref", "addr", "deref") and n < 8:
+                e = strip_casts(e[2] if e[0] != "deref" else e[1])
+                n += 1
+            return isinstance(e, tuple) and e and e[0] == "field" and str(e[2]) == "0" and isinstance(strip_casts(e[1]), tuple) and strip_casts(e[1])[0] == "deref" and \
+                isinstance(strip_casts(strip_casts(e[1])[1]), tuple) and strip_casts(strip_casts(e[1])[1])[0] == "param"
+        ck.ob("C11.4", "file-name-scan-covers-the-whole-string", len(its) == 1 and whole(ctx.args(its[0])[0]), fn=pf["path"],
+              detail="the separator must be searched in the whole string; a search in a part of it finds the last separator of that part (\"/a/\" would yield \"a/\")")
+        # ... and a name is returned only when at least one byte follows the separator: index + 2 < len (len counts the terminator)
+        somes = [b["id"] for b in pf["blocks"] if b["id"] in ctx.cfg.live_blocks() and not b.get("cleanup") and
+                 any(st["k"] == "assign" and st["dst"]["l"] == 0 and st["rv"]["k"] == "agg" and st["rv"].get("variant") == "Some" for st in b["stmts"])]
+        guarded = bool(somes)
+        is_len = lambda z: isinstance(z, tuple) and z and z[0] == "call" and (z[1] or "").endswith(("UnixStr::len", "<impl [T]>::len"))  # noqa: E731
+
+        def lin(e, sign, acc):
+            """e as  a*len + b*index + c  (index: any other atom), accumulated into acc = [a, b, c]; False when not linear"""
+            e = strip_casts(e)
+            v = fold(e)
+            if v is not None:
+                acc[2] += sign * v
+                return True
+            if isinstance(e, tuple) and e and e[0] == "field" and isinstance(e[1], tuple) and e[1][0] == "bin" and str(e[1][1]).endswith("WithOverflow"):
+                e = e[1]
+            if isinstance(e, tuple) and e and e[0] == "bin" and e[1] in ("Add", "Sub", "AddWithOverflow", "SubWithOverflow"):
+                return lin(e[2], sign, acc) and lin(e[3], sign if e[1].startswith("Add") else -sign, acc)
+            if is_len(e):
+                acc[0] += sign
+                return True
+            acc[1] += sign
+            return True
+        for sb in somes:
+            g = False
+            for f in panics.dominating_facts(ctx, sb):
+                if f[0] != "cmp" or f[1] not in ("Lt", "Gt", "Le", "Ge"):
+                    continue
+                small, big = (f[2], f[3]) if f[1] in ("Lt", "Le") else (f[3], f[2])
+                acc = [0, 0, 0]
+                if lin(big, 1, acc) and lin(small, -1, acc) and acc[0] == 1 and acc[1] == -1:
+                    # len - index + c >= (1 if strict else 0)   =>   len - index >= that - c
+                    if (1 if f[1] in ("Lt", "Gt") else 0) - acc[2] >= 3:
+                        g = True
+            guarded = guarded and g
+        ck.ob("C11.4", "file-name-only-when-something-follows", guarded, fn=pf["path"], detail="Some(name) must be dominated by index + 2 < len (a separator in last position has no file name after it)")
         revs = [bb for bb, t in ctx.cfg.calls(lambda t: (t.get("callee") or "").endswith(("Iterator::rev", "Iterator::rposition")))]
         ck.ob("C11.4", "file-name-scans-from-the-back", len(revs) == 1, fn=pf["path"], detail="the separator must be searched from the end (last separator)")
 
